@@ -2,6 +2,7 @@
 
 mod airx;
 mod common;
+mod progs;
 mod refglue;
 mod c01;
 mod c02;
